@@ -11,7 +11,6 @@ import (
 
 	"seehuhn.de/go/sfnt/mac"
 	"verif/harness/guard"
-	"verif/harness/ref/refname"
 	"verif/harness/stats"
 )
 
@@ -328,5 +327,3 @@ func ifs(c bool, a, b string) string {
 	}
 	return b
 }
-
-var _ = refname.UTF16Len
